@@ -25,11 +25,11 @@ func init() {
 // baProxy is the address the service believes to be the KDC's: every request is answered by the KDC or by the attacker's own KDC,
 // as the scenario says
 type baProxy struct {
-	mu            sync.Mutex
-	kdc, attacker *simKDC
-	asBy, tgsBy   string
+	mu              sync.Mutex
+	kdc, attacker   *simKDC
+	asBy, tgsBy     string
 	asSeen, tgsSeen int
-	l             net.Listener
+	l               net.Listener
 }
 
 func (p *baProxy) serve() {
